@@ -364,7 +364,7 @@ def read_ndjson(path, limit=None):
 # ---------------------------------------------------------------------------------------------
 # Record oracle: one initial state per record line, invariant `Conforms` prints MISMATCH lines.
 
-def validate_records(spec_dir, module, cfg, work, recs_path, chunk=40000, timeout=1500, heap="6g"):
+def validate_records(spec_dir, module, cfg, work, recs_path, chunk=40000, timeout=1500, heap="6g", data_name="recs.ndjson", with_reason=False):
     """Runs TLC over recs_path (ndjson) in chunks.  Returns (stats, mismatching records).
     Every record must have been examined (distinct states == records), else Infra."""
     with open(recs_path) as fh:
@@ -379,7 +379,7 @@ def validate_records(spec_dir, module, cfg, work, recs_path, chunk=40000, timeou
         p = os.path.join(work, "recs_%03d.ndjson" % n)
         with open(p, "w") as fh:
             fh.writelines(part)
-        r = run_tlc(spec_dir, module, cfg, os.path.join(work, "tlc_recs_%03d" % n), files={"recs.ndjson": p},
+        r = run_tlc(spec_dir, module, cfg, os.path.join(work, "tlc_%s_%03d" % (module, n)), files={data_name: p},
                     timeout=timeout, heap=heap)
         if r["violated"]:
             raise Infra("record oracle failed: " + r["tail"][-1500:])
@@ -389,7 +389,8 @@ def validate_records(spec_dir, module, cfg, work, recs_path, chunk=40000, timeou
         dist += r["distinct"]
         cmd = r["cmd"]
         for m in r["mismatches"]:
-            idx = int(m.strip("<>").split(",")[2])
-            mism.append(json.loads(part[idx - 1]))
+            parts = [x.strip().strip('"') for x in m.strip("<>").split(",")]
+            idx = int(parts[2])
+            mism.append((json.loads(part[idx - 1]), parts[3:]) if with_reason else json.loads(part[idx - 1]))
         n += 1
     return {"records": len(lines), "tlc_states": dist, "cmd": cmd, "chunks": n}, mism
